@@ -1,4 +1,6 @@
 import ZV.Model.Wire
+import ZV.Hash.SHA256
+import ZV.Generated.C16
 /-!
   C16 — model of the CT wire structures of packages `ct` and `x509/ct`
   (ct/serialization.go, ct/signatures.go, x509/ct/serialization.go).
@@ -261,25 +263,61 @@ inductive KeyKind where
   | rsa | ecdsa
   deriving Repr, DecidableEq
 
-/-- The primitives are parameters: `rsaVerify data sig` = rsa.VerifyPKCS1v15(key, SHA256, sha256(data), sig) == nil;
-    `ecdsaVerify data sig` = the signature parses as an ASN.1 SEQUENCE {r, s} and ecdsa.Verify(key, sha256(data), r, s). -/
+/-- The primitives are parameters, applied to the DIGEST the verifier computes itself:
+    `rsaVerify digest sig` = rsa.VerifyPKCS1v15(key, SHA256, digest, sig) == nil;
+    `ecdsaVerify digest sig` = the signature parses as an ASN.1 SEQUENCE {r, s} (bytes after it are only logged)
+    and ecdsa.Verify(key, digest, r, s). -/
 structure Prims where
   kind : KeyKind
   rsaVerify : Bytes → Bytes → Bool
   ecdsaVerify : Bytes → Bytes → Bool
 
-/-- (s SignatureVerifier) verifySignature(data, sig) -/
+/-- (s SignatureVerifier) verifySignature(data, sig); `hasher.Write(data); hash := hasher.Sum(nil)` is SHA-256
+    (executable model ZV.Hash.sha256).  The enum values are the generated ones (T1). -/
 def verifySignature (p : Prims) (data : Bytes) (sig : DS) : Res Unit :=
-  if sig.hash != 4 then .err                                   -- only SHA256
-  else if sig.alg == 1 then                                    -- RSA
-    match p.kind with
-    | .rsa => if p.rsaVerify data sig.sig then .ok () else .err
-    | .ecdsa => .err                                           -- cannot verify RSA signature with %T key
-  else if sig.alg == 3 then                                    -- ECDSA
-    match p.kind with
-    | .ecdsa => if p.ecdsaVerify data sig.sig then .ok () else .err
-    | .rsa => .err
-  else .err                                                    -- unsupported signature type
+  if sig.hash.toNat != Gen.hashSHA256 then .err                -- only SHA256
+  else
+    let hash := ZV.Hash.sha256 data
+    if sig.alg.toNat == Gen.sigRSA then                        -- RSA
+      match p.kind with
+      | .rsa => if p.rsaVerify hash sig.sig then .ok () else .err
+      | .ecdsa => .err                                         -- cannot verify RSA signature with %T key
+    else if sig.alg.toNat == Gen.sigECDSA then                 -- ECDSA
+      match p.kind with
+      | .ecdsa => if p.ecdsaVerify hash sig.sig then .ok () else .err
+      | .rsa => .err
+    else .err                                                  -- unsupported signature type
+
+/-! ### NewSignatureVerifier -/
+
+/-- the curve of an ECDSA key as `params != *elliptic.P256().Params()` sees it: the comparison is on the
+    CurveParams STRUCT, whose big.Int fields are pointers — only the standard library's P-256 singleton is
+    equal to itself; `copy` (a field-for-field copy of the P-256 parameters in fresh big.Ints) is not. -/
+inductive Curve where
+  | p224 | p256 | p384 | p521 | copy
+  deriving Repr, DecidableEq
+
+/-- the dynamic type and the inspected fields of the `crypto.PublicKey` argument -/
+inductive Key where
+  | rsa (bits : Option Nat)      -- *zcrypto/rsa.PublicKey, N.BitLen(); `none`: N is a nil *big.Int
+  | rsaNil                       -- (*rsa.PublicKey)(nil)
+  | ecdsa (c : Option Curve)     -- *ecdsa.PublicKey; `none`: the embedded Curve interface is nil
+  | ecdsaNil                     -- (*ecdsa.PublicKey)(nil)
+  | other                        -- anything else: nil, *crypto/rsa.PublicKey, key values (not pointers), ed25519, …
+  deriving Repr, DecidableEq
+
+/-- NewSignatureVerifier(pk) with `allowVerificationWithNonCompliantKeys = allow`; on success the verifier holds
+    the key (its kind is what verifySignature's type assertions see) -/
+def newSignatureVerifier (allow : Bool) : Key → Res KeyKind
+  | .rsa none => .panic                                        -- nil *big.Int: N.BitLen() dereferences it
+  | .rsa (some bits) =>
+    if bits < Gen.minRSABits then (if !allow then .err else .ok .rsa) else .ok .rsa
+  | .rsaNil => .panic                                          -- pkType.N on a nil pointer
+  | .ecdsa none => .panic                                      -- Params() on a nil interface
+  | .ecdsa (some c) =>
+    if c != .p256 then (if !allow then .err else .ok .ecdsa) else .ok .ecdsa
+  | .ecdsaNil => .panic
+  | .other => .err                                             -- Unsupported public key type
 
 /-- VerifySCTSignature -/
 def verifySCT (p : Prims) (version : UInt8) (ts : UInt64) (sig : DS) (e : GoLeaf) : Res Unit :=
